@@ -41,6 +41,14 @@ impl<T: Copy> CapVec<T> {
         requires old(self)@.len() + 1 <= old(self).cap@,
         ensures final(self)@ == old(self)@.push(x), final(self).cap == old(self).cap,
     { unimplemented!() }
+    /// `shrink_to_fit` / `shrink_to`: with spare capacity the allocator may move the contents to a smaller block and free the old one
+    /// UNSCRUBBED; only on an exactly filled buffer is it a no-op. As with appends beyond the capacity, the reallocating case is a
+    /// PRECONDITION violation here (C33).
+    #[verifier::external_body]
+    pub fn shrink_to_fit(&mut self)
+        requires old(self)@.len() == old(self).cap@,
+        ensures final(self)@ == old(self)@, final(self).cap == old(self).cap,
+    { unimplemented!() }
     pub open spec fn spec_len(&self) -> usize { self.items@.len() as usize }
     #[verifier::when_used_as_spec(spec_len)]
     pub fn len(&self) -> (r: usize) ensures r == self@.len(), r == self.spec_len() { self.items.len() }
